@@ -292,7 +292,7 @@ func runC08(c *Ctx, in M) (obs []interface{}, props []interface{}) {
 func genC08(c *Ctx) {
 	cases := 1200
 	if c.Thorough {
-		cases = 20000
+		cases = 6000
 	}
 	for i := 0; i < cases; i++ {
 		n := 1
